@@ -140,6 +140,8 @@ pub fn type_session(rng: &mut Rng, cfg: &Cfg, p: &TypistParams) -> Vec<TOp> {
             let long = rng.chance(1, 300);
             let reps = if !long {
                 rng.range(1, 4)
+            } else if rng.chance(1, 50) {
+                rng.range(65_530, 65_600) // a book on the keyboard: past the 16-bit mark
             } else if rng.bool() {
                 rng.range(250, 262)
             } else {
@@ -258,10 +260,25 @@ pub fn inject_bfaults(rng: &mut Rng, cfg: &Cfg, ops: &mut Vec<TOp>, rate_pct: u6
                 }
                 placed += 1;
             } else if kinds_mask & (1 << 7) != 0 && rng.chance(1, 8) {
-                // device power-cycles: BAT completion code AA (or overrun 00), as the host reads it
-                let b = if rng.bool() { 0xAAu8 } else { 0x00 };
-                let b = if cfg.set == 1 && !cfg.xt { crate::spec::xlate(b) } else { b };
-                out.push(TOp { t: o.t.saturating_sub(1), op: Op::Byte { b } });
+                // protocol traffic that is not key data: the device power-cycles (BAT completion
+                // AA), overruns (00), acknowledges or rejects a host command (FA / FE), answers a
+                // reset (FA AA) or an identify request (FA AB 83), echoes (EE), fails its BAT (FC)
+                let seq: &[u8] = *rng.pick(&[
+                    &[0xAA][..],
+                    &[0x00],
+                    &[0xFA],
+                    &[0xFE],
+                    &[0xFA, 0xAA],
+                    &[0xAA, 0xFA, 0xAB, 0x83],
+                    &[0xFA, 0xAB, 0x83],
+                    &[0xEE],
+                    &[0xFC],
+                    &[0xFA, 0xFA],
+                ]);
+                for b in seq {
+                    let b = if cfg.set == 1 && !cfg.xt { crate::spec::xlate(*b) } else { *b };
+                    out.push(TOp { t: o.t.saturating_sub(1), op: Op::Byte { b } });
+                }
                 placed += 1;
             } else if let Op::Key { pfx, code, brk, .. } = o.op {
                 let n = host_bytes(cfg, pfx, code, brk).len();
